@@ -117,8 +117,9 @@ Definition kind (t : Z) (f : option bytes) : Z :=
   | Some _ => 9
   | None => if (t =? 2) || (t =? 3) || (t =? 4) then 2 else if t =? 7 then 0 else t
   end.
+(* the cached value of a formula cell is not part of the compared projection *)
 Definition kview (w : (Z * bytes * option bytes) * Z) : Z * bytes * option bytes * Z :=
-  let '((t, v, f), s) := w in (kind t f, v, f, s).
+  let '((t, v, f), s) := w in (kind t f, match f with Some _ => [] | None => v end, f, s).
 
 (* ---- stream.go:bufferedWriter ---- *)
 Record bw := mkBw { bw_buf : bytes; bw_tmp : option bytes }.
